@@ -3,7 +3,7 @@
 into seeded/mechanical/{results.jsonl,SUMMARY.md}."""
 import collections, glob, json, os
 res = []
-for b, d in (("1", "mutants"), ("2", "mutants2"), ("3", "mutants3")):
+for b, d in (("1", "mutants"), ("2", "mutants2"), ("3", "mutants3"), ("4", "mutants4")):
     for f in glob.glob(f"/verif/.build/{d}/m*/result.json"):
         r = json.load(open(f))
         if r["verdict"].startswith("duplicate"):
@@ -20,7 +20,7 @@ surv = [r for r in res if r["verdict"] == "SURVIVOR"]
 cls = collections.Counter(tri.get(r["key"], {}).get("class", "untriaged") for r in surv)
 relevant = c["killed"] + len(surv)
 L = ["# Mechanical mutation experiment", "",
-     f"{len(res)} single-token mutants (relational / boolean / constant / deleted-statement operators, three batches of `tools/mutate.py gen`; the third adds negate-if and integer+1; duplicates across batches dropped) of the 29 source files the properties are anchored in; each evaluated by all 20 checks of the committed /verif on a scratch worktree, survivors then by the existing test suite.", "",
+     f"{len(res)} single-token mutants (relational / boolean / constant / deleted-statement operators, four batches of `tools/mutate.py gen`; the third and fourth add negate-if and integer+1; duplicates across batches dropped) of the 29 source files the properties are anchored in; each evaluated by all 20 checks of the committed /verif on a scratch worktree, survivors then by the existing test suite.", "",
      "| verdict | mutants |", "|---|---|",
      f"| does not compile | {c['nocompile']} |",
      f"| killed by at least one check | {c['killed']} |",
